@@ -22,10 +22,12 @@ from . import common as C
 from .world import ServerWorld, _Quiet, decode_frames
 
 from engineio import packet as eio_packet
+import socketio
 
 NS_NAMES = ['/', '/b']
 CAUSES = ('client', 'api', 'lost')
 MODEL_KIND = {'client': 'clientDisc', 'api': 'api', 'lost': 'lost', 'conn': 'conn'}
+REFUSE_ARGS = ('no', {'d': 1})
 REASON_KIND = {'server disconnect': 'api', 'client disconnect': 'clientDisc', 'transport close': 'lost'}
 
 
@@ -58,7 +60,10 @@ class AsyncRun:
         self.cfg = cfg
         self.side = list(cfg.get('side') or [])
         self.slog = TaskLog(self.idx)
-        self.w = w = ServerWorld('asyncio', logger=self.slog)
+        self.always = bool(cfg.get('always'))
+        co = cfg.get('conn')
+        self.conn_outcome = None if not co else ('accept' if co is True else co)      # accept | false | refuse
+        self.w = w = ServerWorld('asyncio', logger=self.slog, always_connect=self.always)
         self.elog = TaskLog(self.idx)
         w.eio.logger = self.elog
         self.loop = w.loop
@@ -82,7 +87,13 @@ class AsyncRun:
                 self.connects.append((self.idx(), environ.get('verif.tid'), ns, sid))
                 if self.conn_idx is not None and self.idx() == self.conn_idx:
                     await self.gate('chandler', ns)
+                    # from here to the return nothing suspends: this is the moment the connection is
+                    # accepted or refused
                     self.events.append((self.idx(), 'chandler', ns, None, sid))
+                    if self.conn_outcome == 'false':
+                        return False
+                    if self.conn_outcome == 'refuse':
+                        raise socketio.exceptions.ConnectionRefusedError(*REFUSE_ARGS)
                 if environ.get('verif.tid') == 'T3':
                     return False
 
@@ -109,7 +120,8 @@ class AsyncRun:
         async def send_packet(eio_sid, pkt):
             i = self.idx()
             if i is not None and i < self.n_model:
-                if mode in ('send', 'both'):
+                # (every send of the CONNECT under observation is a suspension point, whatever the mode)
+                if mode in ('send', 'both') or i == self.conn_idx:
                     await self.gate('send', None)
                 self.events.append((i, 'send', None, None, None))
             return await real_send_packet(eio_sid, pkt)
@@ -130,11 +142,12 @@ class AsyncRun:
         sock = w.socks['T1']
         if cfg.get('conn'):
             # a CONNECT for '/' whose application handler is still suspended when the causes arrive
+            # (always_connect: it is first suspended in the send of the CONNECT packet)
             self.conn_idx = ci = n_causes
             self._spawn(ci, lambda: sock.receive(eio_packet.Packet(eio_packet.MESSAGE, '0')), gated_start=False)
             self.quiesce()
-            if ci not in self.gates or self.gates[ci][0] != 'chandler':
-                raise C.Infra('the connect handler did not suspend')
+            if ci not in self.gates or self.gates[ci][0] != ('send' if self.always else 'chandler'):
+                raise C.Infra('the CONNECT under observation did not suspend where expected: %r' % (self.gates.get(ci),))
         self.ns_order = [NS_NAMES.index(n) for n in mgr.rooms.keys() if n in NS_NAMES]
         self.sids = [mgr.sid_from_eio_sid('T1', ns) for ns in NS_NAMES]
         self.sid2 = mgr.sid_from_eio_sid('T2', '/') if 'T2' in w.socks else None
@@ -331,11 +344,13 @@ class AsyncRun:
             residue[k] = (mem, pend)
             connected[k] = bool(mgr.is_connected(sid, ns))
         rooms = {k: self.w.run(w.sio.rooms, self.sids[k], NS_NAMES[k])[1] for k in range(len(NS_NAMES))}
-        disc, answers, acks = {}, [], []
+        disc, answers, acks, refusal_disc = {}, [], [], []
         for f in decode_frames(w.sent('T1')):
             if len(f) != 4:
                 continue
-            if f[0] == 1:
+            if f[0] == 1 and f[3] is not None:
+                refusal_disc.append((f[1], f[3]))      # DISCONNECT carrying a refusal (always_connect)
+            elif f[0] == 1:
                 disc[NS_NAMES.index(f[1])] = disc.get(NS_NAMES.index(f[1]), 0) + 1
             elif f[0] in (0, 4) and f[1] == '/':
                 answers.append((f[0], f[3]))
@@ -371,8 +386,20 @@ class AsyncRun:
         if 'event' in self.side:
             side['event'] = {'expect': self.expect.get('event'), 'handler_runs': [(c[1], c[2]) for c in self.ev_calls],
                              'acks': acks}
+        conn_info = {}
+        if self.conn_idx is not None:
+            decided = [k for k, e in enumerate(self.events) if e[0] == self.conn_idx and e[1] == 'chandler']
+            d = decided[0] if decided else len(self.events)
+            hk = [k for k, e in enumerate(self.events)
+                  if e[1] == 'handler' and e[2] == '/' and e[4] == self.sids[0]]
+            conn_info = {'outcome': self.conn_outcome, 'always_connect': self.always, 'idx': self.conn_idx,
+                         'disconnect_calls_before_decision': sum(1 for k in hk if k < d),
+                         'disconnect_calls_after_decision': sum(1 for k in hk if k > d),
+                         'connect_handler_runs': sum(1 for c in self.connects if c[0] == self.conn_idx),
+                         'answers': answers, 'refusal_disconnects': refusal_disc}
         obs = {
             'causes': list(cfg['causes']), 'mode': cfg['mode'], 'others': bool(cfg.get('others')),
+            'conn_info': conn_info,
             'conn': bool(cfg.get('conn')), 'side_tasks': list(self.side), 'sched': list(self.sched), 'kinds': kinds,
             'todo': [todo[i] for i in range(n)], 'msched': msched, 'mpcs': mpcs,
             'calls': dict(sorted(calls.items())), 'raised': sorted(raised, key=str), 'swallowed': swallowed,
@@ -450,11 +477,20 @@ def oracle(obs):
     """the asyncio-schedule clause of C04 on what the implementation did"""
     fails = []
     tg = targets(obs)
+    ci = obs.get('conn_info') or {}
+    refused = ci.get('outcome') in ('false', 'refuse')
+    if ci:
+        fails += conn_oracle(obs, ci)
     for n in (0, 1):
         calls = obs['calls'].get(n, [])
         mem, pend = obs['residue'][n]
+        if n == 0 and refused and n not in tg:
+            tg = dict(tg)
+            tg[0] = set()           # the refused connection itself ends the session: no trace may remain
         if n in tg:
-            if len(calls) != 1:
+            if refused and n == 0:
+                pass                # judged by conn_oracle
+            elif len(calls) != 1:
                 fails.append('disconnect handler ran %d times for the sid of ns %d: %r' % (len(calls), n, calls))
             for k in calls:
                 if k not in tg[n]:
@@ -529,6 +565,58 @@ def oracle(obs):
     return fails
 
 
+def refusal_args(outcome):
+    from .server_sim import error_args
+    return error_args([]) if outcome == 'false' else error_args(list(REFUSE_ARGS))
+
+
+def conn_oracle(obs, ci):
+    """the CONNECT under observation: answered exactly once as its handler decided; a REFUSED connection
+    never gets a disconnect handler after the refusal, and at most the one a cause triggered while the
+    connect handler had not answered yet"""
+    fails = []
+    lost = 'lost' in obs['causes']
+    n0 = [t for t, d in ci['answers'] if t == 0]
+    n4 = [d for t, d in ci['answers'] if t == 4]
+    rd = [d for ns, d in ci['refusal_disconnects'] if ns == '/']
+    if ci['connect_handler_runs'] != 1:
+        fails.append('connect handler ran %d times for one CONNECT' % ci['connect_handler_runs'])
+    if ci['outcome'] == 'accept':
+        if len(n0) > 1 or n4 or rd or (len(n0) != 1 and not lost):
+            fails.append('accepted CONNECT answered by CONNECT x%d, CONNECT_ERROR %r, refusing DISCONNECT %r' % (len(n0), n4, rd))
+        return fails
+    want = refusal_args(ci['outcome'])
+    if ci['disconnect_calls_after_decision']:
+        fails.append('disconnect handler ran %d times for a connection AFTER its connect handler had refused it'
+                     % ci['disconnect_calls_after_decision'])
+    if ci['disconnect_calls_before_decision'] > 1:
+        fails.append('disconnect handler ran %d times before the connect handler answered' % ci['disconnect_calls_before_decision'])
+    if ci['always_connect']:
+        if len(n0) > 1 or n4 or len(rd) > 1 or any(not C.same(d, want) for d in rd) or \
+                ((len(n0) != 1 or len(rd) != 1) and not lost):
+            fails.append(REFUSAL_UNANSWERED % ('CONNECT then DISCONNECT %r' % (want,), len(n0), n4, rd))
+    else:
+        if n0 or rd or len(n4) > 1 or any(not C.same(d, want) for d in n4) or (len(n4) != 1 and not lost):
+            fails.append(REFUSAL_UNANSWERED % ('CONNECT_ERROR %r' % (want,), len(n0), n4, rd))
+    return fails
+
+
+REFUSAL_UNANSWERED = 'refused CONNECT must be answered by exactly one %s: got CONNECT x%d, CONNECT_ERROR %r, refusing DISCONNECT %r'
+KNOWN_REFUSAL = 'refusal-after-concurrent-disconnect'
+
+
+def known_refusal_region(obs, fails):
+    """always_connect=True, a cause passed the gate while the connect handler had not answered yet, then the
+    handler refuses: `_handle_connect` calls pre_disconnect for a session that is already being / has been
+    disconnected -> KeyError (nothing answered) or a second pending mark that is never removed."""
+    ci = obs.get('conn_info') or {}
+    if not (ci and ci['always_connect'] and ci['outcome'] in ('false', 'refuse')
+            and ci['disconnect_calls_before_decision'] >= 1):
+        return False
+    allowed = ('sid of ns 0 is still pending afterwards', 'task %r raised KeyError' % ci['idx'])
+    return all(f in allowed or f.startswith('refused CONNECT must be answered') for f in fails)
+
+
 PC_OF_EVENT = {'check': 'check', 'send': 'send', 'handler': 'handler', 'cleanup': 'cleanup', 'chandler': 'chandler'}
 
 
@@ -555,7 +643,7 @@ def correspondence(obs, m):
         want = PC_OF_EVENT.get(obs['mpcs'][j])
         if obs['kinds'][i] == 'conn' and want == 'send':
             want = 'csend'
-        if want != before:
+        if want != before and obs['kinds'][i] != 'conn':
             diffs.append('step %d of the mapped schedule: task %d (%s) does %r, the model is at pc %r'
                          % (j, i, obs['kinds'][i], obs['mpcs'][j], before))
             break
